@@ -123,7 +123,7 @@ def snapshot_reservoirs(storage):
             for f, res in storage.data_reservoirs.items()}
 
 
-def run_tree_plan(plan):
+def run_tree_plan(plan, c01=False):
     cfg = plan["config"]
     names = cfg["cat"] + cfg["num"]
     res = {"ok": True, "violation": None, "ops_run": 0, "aborted": None, "probes": {}, "faults_fired": {},
@@ -261,6 +261,19 @@ def run_tree_plan(plan):
                         if v:
                             return v
                 probe("explain_checked")
+                if c01 and cfg["explainer"] == "sage":
+                    # C01 in a deployment with the tree storage / tree imputer (float arithmetic)
+                    iv = explainer.importance_values
+                    tot = sum(float(v_) for v_ in iv.values())
+                    el = float(explainer.explained_loss)
+                    scale = max(1.0, abs(float(explainer.marginal_loss)), abs(float(explainer.model_loss)),
+                                sum(abs(float(v_)) for v_ in iv.values()))
+                    if abs(tot - el) > 1e-9 * scale:
+                        res["ok"] = False
+                        res["violation"] = {"property": "C01", "oracle": "sum-vs-explained-loss", "op_index": i, "cls": "sage",
+                                            "detail": "tree-imputer deployment: sum(importance)=%r explained_loss=%r" % (tot, el)}
+                        return res
+                    probe("identity_checked_tree_world")
                 v = after_update(x, i)
                 if v:
                     return v
